@@ -1,6 +1,9 @@
 import ElvisVerif.Lemmas.ModCmpGen
+import ElvisVerif.Lemmas.ShiftRun
 /-!
-# C12 — TCP behaviour is independent of absolute sequence numbers (mod 2^32), part 1
+# C12 — TCP behaviour is independent of absolute sequence numbers (mod 2^32)
+
+## Part 1 — the primitives
 
 The circular comparison primitives.  Every theorem is about the kernels EXTRACTED from
 `tcp/tcb/modular_cmp.rs` (`Generated/ModCmpKernels.lean`, regenerated on every check), so an
@@ -16,6 +19,19 @@ edit of that file re-checks — and, if it changes behaviour, breaks — these p
 * `impl Ord for Segment` (the reorder heap): on sequence numbers inside one half circle it is
   the reversed numeric order of the offsets, hence a strict weak order
   (`c12_segment_order`, `c12_segment_strict_weak_order`).
+
+## Part 2 — step and run invariance (at the end of this file)
+
+`Tcb.shift ka kb` (`Model/TcbShift.lean`) moves a connection to other ISNs: `ka` is added to
+everything in the local sequence space, `kb` to everything in the remote one, modulo 2^32.
+`c12_block_shift`: each of the six blocks of `process_segment` commutes with it;
+`c12_process_segment_shift`, `c12_step_shift_partial`: so does every TCB operation
+(`open`, LISTEN, CLOSED, `segment_arrives` with its reorder heap and processing loop,
+`advance_time`, `send`, `receive`, `close`, `abort`, `segments`), for ALL `ka kb` — wrap-around
+anywhere in the handshake or the transfer included; `c12_run_shift_partial`: so does every
+admissible run of the two-endpoint system, by induction.  The exclusions are explicit hypotheses,
+each with a witness theorem: the RFC-mandated `SEQ = 0` reset outside a connection
+(`c12_closed_rst_seq_zero`) and F-C12-2, the unset `SND.WL2` (`c12_wl2_counterexample`).
 
 F-C12-1 (repaired in the repository, commit `fix: mod_leq/mod_geq …`): `mod_leq a b` was coded as
 `mod_lt a (b+1)` and therefore false at distance exactly `2^31 − 1` although `mod_lt` is true
@@ -264,5 +280,127 @@ theorem c12_segment_order_needs_half_circle :
     segCmp (segAt 1500000000#32) (segAt 3000000000#32) = .gt ∧
     segCmp (segAt 3000000000#32) (segAt 0#32) = .gt := by decide
 
+
+
+/-! # Part 2 — every TCB operation commutes with the shift map -/
+
+/-- T2, per block of `process_segment` (code order).  Block 3 compares results up to
+    `ConnectionReset ≃ BlindReset` (in SYN-SENT the code tells them apart by `SEG.SEQ = RCV.NXT`
+    with `RCV.NXT` still unset; `segment_arrives` deletes the TCB in both cases); block 4 needs
+    "our SYN is acknowledged iff the segment carries an ACK" in SYN-SENT (true of every TCB made
+    by `open`, `ackBlock_fresh`); block 5 is not reached in SYN-SENT; block 6 excludes a FIN in
+    SYN-RECEIVED (F-C12-2). -/
+theorem c12_block_shift (ka kb : Seq) (s : Tcb) (seg : Hdr) (text : List UInt8) (tl : Seq) :
+    Tcb.seqCheck (s.shift ka kb) (seg.shift kb ka) tl = M.shift ka kb (Tcb.seqCheck s seg tl) ∧
+    Tcb.ackBlock (s.shift ka kb) (seg.shift kb ka) = M.shift ka kb (Tcb.ackBlock s seg) ∧
+    normB (Tcb.rstBlock (s.shift ka kb) (seg.shift kb ka)) = normB (M.shift ka kb (Tcb.rstBlock s seg)) ∧
+    ((s.state = .SynSent → seg.ctl.syn = true → modGt s.snd.una s.snd.iss = seg.ctl.ack) →
+      Tcb.synBlock (s.shift ka kb) (seg.shift kb ka) = M.shift ka kb (Tcb.synBlock s seg)) ∧
+    (s.state ≠ .SynSent →
+      Tcb.textBlock (s.shift ka kb) (seg.shift kb ka) text tl = M.shift ka kb (Tcb.textBlock s seg text tl)) ∧
+    ((seg.ctl.fin = true → s.state ≠ .SynReceived) →
+      Tcb.finBlock (s.shift ka kb) (seg.shift kb ka) tl = M.shift ka kb (Tcb.finBlock s seg tl)) :=
+  ⟨shift_seqCheck ka kb s seg tl, shift_ackBlock ka kb s seg, shift_rstBlock_norm ka kb s seg,
+   shift_synBlock ka kb s seg, shift_textBlock ka kb s seg text tl, shift_finBlock ka kb s seg tl⟩
+
+/-- T2: `process_segment` as a whole, on a TCB that is fresh while in SYN-SENT, for a segment
+    that does not bring a FIN into SYN-SENT / SYN-RECEIVED -/
+theorem c12_process_segment_shift (ka kb : Seq) (s : Tcb) (seg : Segment) (hF : SynSentFresh s)
+    (hfin : seg.hdr.ctl.fin = true → Late s) :
+    normM (Tcb.processSegment (s.shift ka kb) (seg.shift kb ka)) =
+      normM (M.shift ka kb (Tcb.processSegment s seg)) :=
+  shift_processSegment ka kb s seg hF hfin
+
+/-- T2 `c12_step_shift`: every operation of the TCB API commutes with the shift map, for all
+    `ka kb`.  `_partial` because of the two F-C12-2 hypotheses (`close` not in SYN-RECEIVED;
+    `ArrPre.nofin`: no FIN processed in SYN-SENT / SYN-RECEIVED); the other hypotheses are
+    invariants of every TCB made by `open` (`SynSentFresh`, empty reorder heap in SYN-SENT) and
+    the RFC exclusion for CLOSED (`rst ∨ ack`, see `c12_closed_rst_seq_zero`). -/
+theorem c12_step_shift_partial (ka kb : Seq) :
+    (∀ lp rp iss mtu, Tcb.open lp rp (iss + ka) mtu = shiftE ka kb (Tcb.open lp rp iss mtu)) ∧
+    (∀ seg iss mtu, segmentArrivesListen (Segment.shift kb ka seg) (iss + ka) mtu =
+        shiftL ka kb (segmentArrivesListen seg iss mtu)) ∧
+    (∀ (seg : Hdr) tl, seg.ctl.rst = true ∨ seg.ctl.ack = true →
+        segmentArrivesClosed (seg.shift kb ka) tl = (segmentArrivesClosed seg tl).map (Hdr.shift ka kb)) ∧
+    (∀ (s : Tcb) seg, ArrPre s seg →
+        (s.shift ka kb).segmentArrives (seg.shift kb ka) = M.shift ka kb (s.segmentArrives seg)) ∧
+    (∀ (s : Tcb) dt, (s.shift ka kb).advanceTime dt = M.shift ka kb (s.advanceTime dt)) ∧
+    (∀ (s : Tcb) m, (s.shift ka kb).send m = (s.send m).shift ka kb) ∧
+    (∀ (s : Tcb), (s.shift ka kb).receive = ((s.receive).1.shift ka kb, (s.receive).2)) ∧
+    (∀ (s : Tcb), s.state ≠ .SynReceived → (s.shift ka kb).close = M.shift ka kb s.close) ∧
+    (∀ (s : Tcb), (s.shift ka kb).abort = shiftE ka kb s.abort) ∧
+    (∀ (s : Tcb), (s.state = .SynSent → s.snd.wnd = 0) →
+        (s.shift ka kb).segments = M.shiftOut ka kb s.segments) :=
+  ⟨shift_open ka kb, fun seg iss mtu => shift_listen ka kb seg iss mtu, fun seg tl h => shift_closed ka kb seg tl h,
+   fun s seg h => shift_segmentArrives ka kb s seg h, shift_advanceTime ka kb, shift_send ka kb,
+   shift_receive ka kb, fun s h => shift_close ka kb s h, shift_abort ka kb,
+   fun s h => shift_segments ka kb s h⟩
+
+/-- the hypotheses of `c12_step_shift_partial` are satisfiable in a non-trivial state: an
+    ESTABLISHED TCB in the middle of a transfer, with a parked out-of-order segment, meeting a
+    data segment with FIN -/
+example :
+    let t : Tcb := { localPort := 1, remotePort := 2, mtu := 1500, initiation := .Open, state := .Established,
+                     snd := { una := 4294967290#32, nxt := 5#32, wnd := 65535, wl1 := 77, wl2 := 4294967290#32,
+                              iss := 4294967000#32 },
+                     rcv := { irs := 70, nxt := 2147483640#32 },
+                     incoming := { segments := [segAt 2147483700#32] } }
+    ArrPre t ⟨{ (segAt 2147483640#32).hdr with ctl := { ack := true, fin := true }, ack := 5#32 }, [1, 2, 3]⟩ :=
+  ⟨(fun h => by cases h), (fun h => by cases h), (fun h => absurd (And.intro (by decide) (by decide)) h)⟩
+
+/-- outside a connection, a segment without ACK is answered with `<SEQ=0><ACK=SEG.SEQ+SEG.LEN><CTL=RST,ACK>`
+    (RFC 9293 3.10.7.1): the ACK moves with the peer's space, the SEQ is 0 for every ISN pair -/
+theorem c12_closed_rst_seq_zero (ka kb : Seq) (seg : Hdr) (tl : Seq)
+    (hr : seg.ctl.rst = false) (ha : seg.ctl.ack = false) :
+    segmentArrivesClosed (seg.shift kb ka) tl = (segmentArrivesClosed seg tl).map (Hdr.shift 0 kb) ∧
+    (segmentArrivesClosed (seg.shift kb ka) tl).map (·.seq) = some 0 :=
+  closed_rst_seq_zero ka kb seg tl hr ha
+
+/-! ## F-C12-2: the unset `SND.WL2` -/
+
+/-- active open with ISS `iss`; the peer's SYN (no ACK) arrives: simultaneous open, SYN-RECEIVED;
+    `close()`; the peer's SYN-ACK arrives advertising a window of 1234 -/
+def wl2Ops (iss : Nat) : List Op :=
+  [ .open .A (BitVec.ofNat 32 iss) 1500#16,
+    .inject .A (forge .A 2 5000 0 65535 []),
+    .close .A,
+    .inject .A (forge .A 18 5000 (iss + 1) 1234 []) ]
+
+def sndWnd (r : Except String (Sys × List Res)) : Option Nat :=
+  match r with
+  | .ok (s, _) => s.a.tcb.map fun t => t.snd.wnd.toNat
+  | .error _ => none
+
+/-- F-C12-2 (known, replayed on the real code by the `c12-run` probe): `SND.WL2` is copied from
+    the ACK field of the peer's SYN, which carries no ACK bit — the constant 0.  After `close()` in
+    SYN-RECEIVED the window-update test `SND.WL1 = SEG.SEQ ∧ SND.WL2 =< SEG.ACK` compares the
+    peer's real ACK number with that 0: with ISS 100 the retransmitted SYN-ACK updates `SND.WND`
+    to 1234, with ISS 2^31+100 (the same ops shifted by 2^31) it does not. -/
+theorem c12_wl2_counterexample :
+    sndWnd (Sys.run {} (wl2Ops 100)) = some 1234 ∧
+    sndWnd (Sys.run {} (wl2Ops (2147483648 + 100))) = some 65535 ∧
+    wl2Ops (2147483648 + 100) = (wl2Ops 100).map (Op.shift 2147483648#32 0#32) :=
+  ⟨by decide, by decide, by rfl⟩
+
+/-! ## whole runs -/
+
+/-- T2 `c12_run_shift`: a run of the two-endpoint system (any interleaving of opens, writes,
+    reads, timer ticks, `segments()`, deliveries of ANY earlier segment any number of times —
+    loss, duplication, reordering —, forged segments, closes, aborts) from ISNs `(a, b)` and the
+    same run from `(a + ka, b + kb)` pass through shifted states and produce shifted results,
+    op by op: the same flags, lengths, payloads, windows, the same data delivered, the same
+    state changes, SEQ/ACK fields moved by exactly `ka` / `kb`.  `_partial`: `RunAdm` demands of
+    every op what `c12_step_shift_partial` demands (F-C12-2, the CLOSED reset, segments delivered
+    to the side they are addressed to). -/
+theorem c12_run_shift_partial (ka kb : Seq) (ops : List Op) (h : RunAdm {} ops) :
+    Sys.run {} (ops.map (Op.shift ka kb)) = shiftRun ka kb ops (Sys.run {} ops) := by
+  have := Sys.shift_run ka kb {} ops h
+  rw [Sys.shift_init] at this
+  exact this
+
+/-- one step of the system, for the record (the induction step of the run theorem) -/
+theorem c12_sys_step_shift_partial (ka kb : Seq) (s : Sys) (op : Op) (h : Adm s op) :
+    (s.shift ka kb).step (op.shift ka kb) = shiftSR op.side ka kb (s.step op) :=
+  Sys.shift_step ka kb s op h
 
 end Elvis.Tcp
